@@ -125,8 +125,14 @@ pub open spec fn part_wf(p: &Partition) -> bool {
             && last_seg(p).unsaved_messages is None && last_seg(p).end_offset == last_seg(p).current_offset
     &&& forall|i: int| 0 <= i < p.segments@.len() - 1 ==> (#[trigger] p.segments@[i]).start_offset < next_offset(p)
     &&& last_seg(p).start_offset <= next_offset(p)
+    // segments are kept sorted by start offset (add_persisted_segment sorts the whole vector: [C14.off.add.last] of unit
+    // retention proves "the new segment lands last with the prefix unchanged" only for a sorted vector)
+    &&& segs_sorted_strict(p.segments@)
     // the unsaved-messages counter is zero only when nothing is buffered (flush relies on it)
     &&& (!last_seg(p).is_closed && p.unsaved_messages_count == 0) ==> seg_buf(last_seg(p)).len() == 0
+}
+pub open spec fn segs_sorted_strict(s: Seq<Segment>) -> bool {
+    forall|i: int, j: int| 0 <= i < j < s.len() ==> (#[trigger] s[i]).start_offset < (#[trigger] s[j]).start_offset
 }
 pub open spec fn flush_measure(s: &Segment) -> nat {
     if s.unsaved_messages is None { 0 } else if seg_buf(s).len() == 0 { 1 } else { 2 }
